@@ -1,6 +1,9 @@
 #!/usr/bin/env python3
-"""Regenerate lean/WebPkg/Gen/Facts.lean from the Go sources of the repository (tools/extract/main.go, go/ast).
-usage: extract_facts.py <repo> <out.lean>"""
+"""Regenerate lean/WebPkg/Gen/Facts.lean (tools/extract: literal sets and tables) and lean/WebPkg/Gen/Funcs<Pkg>.lean
+(tools/xlate: the pure scalar / dispatch functions of the Go sources translated to Lean definitions) from the repository.
+A package whose whitelisted function left the translator's fragment gets NO module (the stale one is deleted), so the
+tie modules that import it stop building and the check reports the broken tie.
+usage: extract_facts.py <repo> <out Facts.lean>"""
 import os, subprocess, sys
 repo, out = sys.argv[1], sys.argv[2]
 here = os.path.dirname(os.path.abspath(__file__))
@@ -13,3 +16,20 @@ os.makedirs(os.path.dirname(out), exist_ok=True)
 old = open(out).read() if os.path.exists(out) else None
 if old != r.stdout:            # keep the mtime when nothing changed: no rebuild
     open(out, 'w').write(r.stdout)
+
+# function-level translation, one module per Go package
+errs = []
+for tag in ('sh', 'cbor', 'mice', 'sxgver', 'bundlever'):
+    dst = os.path.join(os.path.dirname(out), 'Funcs' + tag[0].upper() + tag[1:] + '.lean')
+    r = subprocess.run(['go', 'run', 'main.go', repo, tag], cwd=os.path.join(here, 'xlate'), env=env, capture_output=True, text=True)
+    if r.returncode != 0 or 'namespace WebPkg.Gen.Funcs' not in r.stdout:
+        if os.path.exists(dst):
+            os.remove(dst)
+        errs.append(f'xlate {tag}: ' + ((r.stderr or r.stdout).strip().splitlines() or ['failed'])[0][:300])
+        continue
+    old = open(dst).read() if os.path.exists(dst) else None
+    if old != r.stdout:
+        open(dst, 'w').write(r.stdout)
+if errs:
+    sys.stdout.write(' | '.join(errs))
+    sys.exit(1)
